@@ -242,7 +242,10 @@ def module_env(module):
         try:
             ast.literal_eval(v)
         except (ValueError, TypeError, SyntaxError, MemoryError, RecursionError):
-            continue
+            # a constant expression over numbers, math/numpy constants and other module constants (_TWO_PI = 2.0 * np.pi):
+            # evaluated by the interpreter itself when it is read
+            if any(isinstance(n, (ast.Call, ast.Lambda, ast.ListComp, ast.GeneratorExp, ast.DictComp, ast.SetComp, ast.Subscript)) for n in ast.walk(v)):
+                continue
         out[k] = v
     return out
 
@@ -620,6 +623,9 @@ class Interp:
         short = nm.split(".")[-1]
         args = [self.ev(a, env) for a in n.args]
         kw = {k.arg: self.ev(k.value, env) for k in n.keywords}
+        if nm in ("itertools.product", "product") and args and not kw and all(isinstance(a, (list, tuple, range)) for a in args):
+            import itertools as _it
+            return [list(t) for t in _it.product(*[list(a) for a in args])]
         if isinstance(n.func, ast.Attribute) and not nm.startswith(("np.", "numpy.", "math.")):
             recv = self.ev(n.func.value, env)
             if isinstance(recv, list) and short == "append":
@@ -715,6 +721,9 @@ class Interp:
             return I(0.0, 1.0)
         if nm == "list" and len(args) == 1:
             return list(self.iterate(args[0]))
+        if nm in ("itertools.product", "product") and args and not kw and all(isinstance(a, (list, tuple, range)) for a in args):
+            import itertools as _it
+            return [list(t) for t in _it.product(*[list(a) for a in args])]
         if nm == "reversed" and len(args) == 1 and isinstance(args[0], (list, tuple)):
             return list(reversed(args[0]))
         if nm == "tuple" and len(args) == 1:
